@@ -98,7 +98,15 @@ inductive CliErr
   | ambiguous           -- several services, none selected, no `default`
   | noComponent
   | noType
+  | crash               -- a non-click exception (outside the documented behaviour)
   deriving DecidableEq, Repr
+
+/-- Python truthiness of a non-dict value (`if overrides:` in `merge_config`). -/
+def Atom.truthy : Atom → Bool
+  | .none => false
+  | .str s => s ≠ ""
+  | .cls _ => true
+  | .other r => !(r = "0" || r = "false" || r = "[]" || r = "0.0" || r = "-0.0" || r = "{}")
 
 /-- `section = section.setdefault(part, {})` along `keys[:-1]`, then `section[last] = v`. -/
 def setPath : List String → Cfg → Dict → Except CliErr Dict
@@ -158,35 +166,41 @@ def truthyName (s : Option String) : Option String :=
   | some "" => none
   | other => other
 
-/-- Everything `run()` does between parsing and `run_application(...)`.
-`files` are the parsed YAML documents in command-line order. -/
-def cliConfig (files : List Dict) (sets : List (String × Option Cfg))
-    (svcOpt envSvc : Option String) : Except CliErr RunArgs := do
-  let config := files.foldl merge []
-  let config ← applySets config sets
-  -- services = config.pop("services", {})
+/-- Stage 1: merge the files in order, then apply the `--set` overrides in order. -/
+def loadConfig (files : List Dict) (sets : List (String × Option Cfg)) : Except CliErr Dict :=
+  applySets (files.foldl merge []) sets
+
+/-- Stage 2: `services = config.pop("services", {})`; a top-level `component` becomes
+service `default` unless one is defined. Returns (top-level config, services). -/
+def splitServices (config : Dict) : Except CliErr (Dict × Dict) := do
   let services ← match alookup "services" config with
     | none => pure ([] : Dict)
     | some (.dict s) => pure s
     | some (.atom _) => throw CliErr.servicesNotDict
   let config := aerase "services" config
-  -- top-level "component" becomes service "default" unless one exists
-  let (config, services) :=
-    match alookup "component" config with
-    | some comp =>
-      (aerase "component" config,
-       if acontains "default" services then services
-       else services ++ [("default", Cfg.dict [("component", comp)])])
-    | none => (config, services)
-  let service := (truthyName svcOpt).orElse fun _ => truthyName envSvc
-  let svcCfg ← selectService services service
-  let svcDict : Option Dict := match svcCfg with
-    | .dict d => some d
-    | .atom _ => none          -- `None` service section behaves like an empty one
-  let config := mergeOpt (some config) svcDict
+  match alookup "component" config with
+  | some comp =>
+    pure (aerase "component" config,
+          if acontains "default" services then services
+          else services ++ [("default", Cfg.dict [("component", comp)])])
+  | none => pure (config, services)
+
+/-- `--service or $ASPHALT_SERVICE` (empty strings are falsy). -/
+def serviceName (svcOpt envSvc : Option String) : Option String :=
+  (truthyName svcOpt).orElse fun _ => truthyName envSvc
+
+/-- Stage 4: `merge_config(config, service_config)`: falsy sections behave like an empty
+one, truthy non-dict sections crash in `.items()`. -/
+def finalConfig (config : Dict) (svcCfg : Cfg) : Except CliErr Dict :=
+  match svcCfg with
+  | .dict d => pure (merge config d)
+  | .atom a => if a.truthy then throw CliErr.crash else pure config
+
+/-- Stage 5: extract the root component, its type, and the backend options. -/
+def extractRunArgs (config : Dict) : Except CliErr RunArgs := do
   let comp ← match alookup "component" config with
     | some (.dict c) => pure c
-    | some (.atom _) => throw CliErr.noType   -- not generated: non-dict component
+    | some (.atom _) => throw CliErr.crash    -- `.pop("type")` on a non-dict
     | none => throw CliErr.noComponent
   let config := aerase "component" config
   let ty ← match alookup "type" comp with
@@ -200,6 +214,16 @@ def cliConfig (files : List Dict) (sets : List (String × Option Cfg))
   pure { type := ty, component := comp, backend := backend,
          backendOptions := backendOptions, kwargs := config }
 
+/-- Everything `run()` does between parsing and `run_application(...)`.
+`files` are the parsed YAML documents in command-line order. -/
+def cliConfig (files : List Dict) (sets : List (String × Option Cfg))
+    (svcOpt envSvc : Option String) : Except CliErr RunArgs := do
+  let config ← loadConfig files sets
+  let (config, services) ← splitServices config
+  let svcCfg ← selectService services (serviceName svcOpt envSvc)
+  let config ← finalConfig config svcCfg
+  extractRunArgs config
+
 /-! ### `_init_component` -/
 
 /-- A component class as far as `_init_component` is concerned: the `add_component`
@@ -208,7 +232,21 @@ the constructor raises. -/
 structure ClassDef where
   children : Dict
   ctorFails : Bool := false
+  prepareAdds : List String := []     -- names passed to add_resource() in prepare()
+  startAdds : List String := []       -- names passed to add_resource() in start()
   deriving Repr
+
+/-- `ComponentContext.add_resource`: `default` is remapped to the alias-derived name
+only while the component is in its `start()` phase. -/
+inductive CompPhase | preparing | starting
+  deriving DecidableEq, Repr
+
+def publishName (phase : CompPhase) (dflt name : String) : String :=
+  if name = "default" ∧ phase = .starting then dflt else name
+
+/-- Names under which a component with default resource name `dflt` publishes. -/
+def publishedNames (c : ClassDef) (dflt : String) : List String :=
+  c.prepareAdds.map (publishName .preparing dflt) ++ c.startAdds.map (publishName .starting dflt)
 
 inductive InitErr
   | lookupError (path : String)        -- type could not be resolved
@@ -260,15 +298,23 @@ def normaliseChild (childPath alias : String) : Cfg → Except InitErr Dict
     | some (.atom (.str s)) => .ok (ainsert "type" (.atom (.str (beforeSlash s))) d)
     | _ => .ok d
 
+/-- `config.pop("components", {})` as far as it is a dictionary (`None` counts as absent). -/
+def componentsOf (config : Dict) : Option Dict :=
+  match alookup "components" config with
+  | some (.dict d) => some d
+  | _ => none
+
+/-- `f"{path}.{alias}" if path else alias` -/
+def childPath (path alias : String) : String :=
+  if path.isEmpty then alias else path ++ "." ++ alias
+
 mutual
 /-- `_init_component(path, config, default_resource_name)`; `fuel` bounds the depth
 (class tables may be cyclic — Python then recurses until `RecursionError`). -/
 def initTree (env : InitEnv) : Nat → String → Dict → String → Except InitErr CompTree
   | 0, path, _, _ => .error (.noType path)
   | fuel + 1, path, config, dflt => do
-    let childCfg : Option Dict := match alookup "components" config with
-      | some (.dict d) => some d
-      | _ => none
+    let childCfg : Option Dict := componentsOf config
     let config := aerase "components" config
     let ty ← match alookup "type" config with
       | some t => pure t
@@ -286,20 +332,11 @@ def initTree (env : InitEnv) : Nat → String → Dict → String → Except Ini
 def initChildren (env : InitEnv) : Nat → String → Dict → Except InitErr (List CompTree)
   | _, _, [] => .ok []
   | fuel, path, (alias, c) :: rest => do
-    let childPath := if path.isEmpty then alias else path ++ "." ++ alias
-    let d ← normaliseChild childPath alias c
+    let d ← normaliseChild (childPath path alias) alias c
     let dflt := (afterSlash alias).getD "default"
-    let t ← initTree env fuel childPath d dflt
+    let t ← initTree env fuel (childPath path alias) d dflt
     let ts ← initChildren env fuel path rest
     pure (t :: ts)
 end
-
-/-- `ComponentContext.add_resource`: `default` is remapped to the alias-derived name
-only while the component is in its `start()` phase. -/
-inductive CompPhase | preparing | starting
-  deriving DecidableEq, Repr
-
-def publishName (phase : CompPhase) (dflt name : String) : String :=
-  if name = "default" ∧ phase = .starting then dflt else name
 
 end Asphalt
